@@ -6,6 +6,7 @@
    interval-tree lookup helpers).  Node identity is a harness-assigned number. *)
 From Coq Require Import ZArith List Bool.
 From V Require Import Result LazyTree.
+From V Require SeqOps.
 Import ListNotations.
 Open Scope Z_scope.
 
@@ -375,6 +376,39 @@ Definition ml_append (w : world) (ir v : id) : world * bool :=
 Definition assign_slice (l : list id) (lo hi : nat) (vs : list id) : list id :=
   filter (fun x => negb (mem x vs)) (firstn lo l) ++ dedup vs ++ filter (fun x => negb (mem x vs)) (skipn hi l).
 
+(* ... and with an EXTENDED slice, l[a:b:c] = vs with a step other than 1 (same length on both sides): list places the values
+   at the positions of the range, then the same rule -- every value just assigned stays only at the last position it was
+   assigned to (in the order of the right-hand side). *)
+Fixpoint set_positions (l : list id) (ps : list nat) (vs : list id) : list id :=
+  match ps, vs with
+  | p :: ps', v :: vs' => set_positions (set_at p v l) ps' vs'
+  | _, _ => l
+  end.
+
+(* the last position of `ps` (in the order of ps) at which new0 holds x *)
+Fixpoint last_assigned (new0 : list id) (ps : list nat) (x : id) : option nat :=
+  match ps with
+  | [] => None
+  | p :: ps' =>
+    match last_assigned new0 ps' x with
+    | Some q => Some q
+    | None => match nth_error new0 p with Some y => if y =? x then Some p else None | None => None end
+    end
+  end.
+
+Fixpoint keep_last_from (pos : nat) (new0 rest : list id) (ps : list nat) : list id :=
+  match rest with
+  | [] => []
+  | x :: r =>
+    (match last_assigned new0 ps x with
+     | Some q => if Nat.eqb q pos then [x] else []
+     | None => [x]
+     end) ++ keep_last_from (S pos) new0 r ps
+  end.
+
+Definition assign_ext (l : list id) (ps : list nat) (vs : list id) : list id :=
+  let new0 := set_positions l ps vs in keep_last_from 0 new0 new0 ps.
+
 Definition ml_assign (w : world) (ir : id) (new : list id) : world * bool :=
   let old := kids w ir in
   let '(w1, ok1) := fold_ok (fun w v => ml_remove_hook w ir v) (filter (fun x => negb (mem x new)) old) w in
@@ -413,6 +447,7 @@ Inductive op :=
 | OModDelSlice (ir : id) (a b : option Z)
 | OModSetItem (ir : id) (i : Z) (v : id)
 | OModSetSlice (ir : id) (a b : option Z) (vs : list id)
+| OModSetExt (ir : id) (a b : option Z) (c : Z) (vs : list id)     (* l[a:b:c] = vs with a step other than 1 *)
 | OModClear (ir : id)
 | OModReverse (ir : id)
 | OAttrAddr (bi : id) (a : option Z)
@@ -580,6 +615,16 @@ Definition step (w : world) (o : op) : res world :=
     let lo := norm_bound a 0 len in
     let hi := Z.max lo (norm_bound b (Z.of_nat len) len) in
     flagged (ml_assign w ir (assign_slice (kids w ir) (Z.to_nat lo) (Z.to_nat hi) vs))
+  | OModSetExt ir a b c vs =>
+    let len := length (kids w ir) in
+    match SeqOps.py_slice_indices a b c len with
+    | Err e => Err e                                   (* ValueError: slice step cannot be zero *)
+    | Ok (s, e, st) =>
+      let ps := SeqOps.py_range_positions s e st len in
+      if st =? 1 then Err EImpossible                   (* an ordinary slice: OModSetSlice *)
+      else if negb (Nat.eqb (length vs) (length ps)) then Err EValue     (* attempt to assign sequence of size n to extended slice of size m *)
+      else flagged (ml_assign w ir (assign_ext (kids w ir) ps vs))
+    end
   | OModClear ir =>
     (* MutableSequence.clear: pop() from the end until empty *)
     let '(w1, ok) := fold_ok (fun w v => ml_remove_hook w ir v) (rev (kids w ir)) w in
